@@ -7,7 +7,7 @@
 From Coq Require Import String.
 From Coq Require Import List Ascii ZArith Bool Lia.
 From CGV Require Import Base.PyBase Base.PyVal Base.NxGraph Base.PyGen Gen.ReaderGen Dialect.DialectImpl
-     Reader.ReaderImpl Reader.Grammar Reader.ReaderLemmas Reader.Lin.
+     Reader.ReaderImpl Reader.Grammar Reader.ReaderLemmas Reader.Lin Reader.GraphLemmas.
 Import ListNotations.
 Open Scope Z_scope.
 
@@ -57,7 +57,8 @@ Qed.
 
 (** ** characters of the text that follows a node *)
 (** none of "[", ")", "(", "}" *)
-Definition inner (c : ascii) : Prop := str_in [c] fnc_eon = false.
+Definition stops4 : list pystr := [S "["; S ")"; S "("; S "}"].
+Definition inner (c : ascii) : Prop := str_in [c] stops4 = false.
 Lemma inner_sym s : inner (sym_char s). Proof. destruct s; reflexivity. Qed.
 Lemma inner_digit d : (d < 10)%nat -> inner (digit_char d).
 Proof. intros H. do 10 (destruct d as [|d]; [reflexivity|]). lia. Qed.
@@ -115,25 +116,24 @@ Definition nobar_rings := cls_rings nobar nobar_sym nobar_digit nobar_pct.
 Lemma inner_facts c : inner c ->
   c <> "["%char /\ c <> ")"%char /\ c <> "("%char /\ c <> "}"%char.
 Proof.
-  unfold inner, fnc_eon. cbn [str_in existsb str_eqb]. intros H.
+  unfold inner, stops4. cbn [str_in existsb str_eqb]. intros H.
   repeat split; intros ->; cbn in H; discriminate.
 Qed.
-Lemma inner_not_in c l : inner c -> (forall x, In x l -> In x fnc_eon) -> str_in [c] l = false.
+Lemma inner_not_in c l : inner c -> (forall x, In x l -> In x stops4) -> str_in [c] l = false.
 Proof.
   intros Hc Hl. unfold str_in. apply not_true_is_false. intros E. apply existsb_exists in E as [x [Hx Ex]].
-  unfold inner, str_in in Hc. assert (existsb (str_eqb [c]) fnc_eon = true); [|congruence].
+  unfold inner, str_in in Hc. assert (existsb (str_eqb [c]) stops4 = true); [|congruence].
   apply existsb_exists. exists x. split; [now apply Hl|assumption].
 Qed.
-Lemma find_idx_inner p chars : Forall inner p -> (forall x, In x chars -> In x fnc_eon) ->
+Lemma find_idx_inner p chars : Forall inner p -> (forall x, In x chars -> In x stops4) ->
   forall tail, find_idx (p ++ tail) chars = (length p + find_idx tail chars)%nat.
 Proof.
   intros Hp Hc tail. induction Hp as [|c p H _ IH]; [reflexivity|]. cbn [app find_idx length].
   rewrite inner_not_in by assumption. now rewrite IH.
 Qed.
-Lemma incl_open : forall x, In x fnc_next_open -> In x fnc_eon. Proof. cbn. intuition. Qed.
-Lemma incl_close : forall x, In x fnc_next_close -> In x fnc_eon. Proof. cbn. intuition. Qed.
-Lemma incl_eon_a : forall x, In x fnc_eon_a -> In x fnc_eon. Proof. cbn. intuition. Qed.
-Lemma incl_eon : forall x, In x fnc_eon -> In x fnc_eon. Proof. auto. Qed.
+Lemma incl_open : forall x, In x fnc_next_open -> In x stops4. Proof. cbn. intuition. Qed.
+Lemma incl_close : forall x, In x fnc_next_close -> In x stops4. Proof. cbn. intuition. Qed.
+Lemma incl_eon_a : forall x, In x fnc_eon_a -> In x stops4. Proof. cbn. intuition. Qed.
 
 (** the text that can follow a complete flat item: the end, a node, or a branch opening with a node *)
 Inductive cont : pystr -> Prop :=
@@ -204,18 +204,34 @@ Qed.
 
 Lemma stopper_bar : stopper "|"%char. Proof. repeat split. Qed.
 
+Lemma lin_ok_parts fo i : lin_ok fo i = true ->
+  name_ok fo (l_name i) = true /\ forallb (fun om => marker_ok (snd om)) (l_rings i) = true
+  /\ match l_mult i with
+     | Some ds => l_rings i = [] /\ digits_ok ds = true /\ (1 <= digits_nat ds)%nat
+     | None => True end
+  /\ match l_close i with Some _ => l_bond i = None | None => True end.
+Proof.
+  unfold lin_ok. intros H. apply andb_prop in H as [H Hc]. apply andb_prop in H as [H Hm]. apply andb_prop in H as [Hn Hr].
+  split; [assumption|]. split; [assumption|]. split.
+  - destruct (l_mult i); [|exact I]. apply andb_prop in Hm as [Hm H1]. apply andb_prop in Hm as [H2 H3].
+    destruct (l_rings i); [|discriminate]. apply Nat.leb_le in H1. auto.
+  - destruct (l_close i); [|exact I]. now destruct (l_bond i).
+Qed.
+
+(** the bond order the look-ahead loop itself finds: none behind a multiplier (the "|" stops it) *)
+Definition bo0_of (i : lin) : Z := match l_mult i with Some _ => default_bond_order | None => oord (l_bond i) end.
+
 (** look-ahead of a flat item [i] followed by [k] *)
 Lemma scan_lin fo i k cur cyc : lin_ok fo i = true -> cont k ->
   exists x rdx, ring_scan cur (lin_tail_str i ++ k) 0 (clean_st cyc []) = Ok (x, rdx)
                 /\ (r_cyc x, r_ces x) = spec_rings (l_rings i) cur (cyc, [])
-                /\ bond_expr (lin_tail_str i ++ k) rdx = Ok (oord (l_bond i)).
+                /\ bond_expr (lin_tail_str i ++ k) rdx = Ok (bo0_of i).
 Proof.
-  intros Hok Hk. unfold lin_ok in Hok. repeat (apply andb_prop in Hok as [Hok ?]).
-  rename H into Hcl. rename H0 into Hmu. rename H1 into Hr.
-  unfold lin_tail_str. destruct (l_mult i) as [ds|] eqn:Em.
+  intros Hok Hk. destruct (lin_ok_parts fo i Hok) as (_ & Hr & Hm & _).
+  unfold lin_tail_str, bo0_of. destruct (l_mult i) as [ds|] eqn:Em.
   - (* multiplied node: "|" stops the loop at once *)
-    repeat (apply andb_prop in Hmu as [Hmu ?]). destruct (l_rings i); [|discriminate]. destruct (l_bond i); [discriminate|].
-    cbn [mult_str rings_str osym_str app]. rewrite clean_is_sym, scan_stop by reflexivity.
+    destruct Hm as (Er & _). rewrite Er.
+    cbn [mult_str rings_str app]. rewrite clean_is_sym, scan_stop by reflexivity.
     eexists _, _. split; [reflexivity|]. split; reflexivity.
   - cbn [mult_str app].
     assert (Hx : exists c tl, close_str (l_close i) ++ k = c :: tl /\ stopper c).
@@ -230,10 +246,18 @@ Proof.
 Qed.
 
 (** ** the multiplier count (lines 202-214) *)
-Definition nmon_expr (rest : pystr) : res Z :=
+Definition nmon_expr (rest : pystr) (bond_order : Z) : res (Z * Z) :=
   match rest with
-  | c :: _ => if Ascii.eqb c "|"%char then eon <- fnc0 rest fnc_eon ;; py_int_full (py_slice rest 1 eon) else Ok 1
-  | [] => Ok 1
+  | c :: _ => if Ascii.eqb c "|"%char then
+                eon <- fnc0 rest fnc_eon ;;
+                n <- py_int_full (py_slice rest 1 eon) ;;
+                bo <- (match nth_error rest eon with
+                       | Some cb => if sto_mem cb then symbol_to_order_lookup [cb] else Ok bond_order
+                       | None => Ok bond_order
+                       end) ;;
+                Ok (n, bo)
+              else Ok (1, bond_order)
+  | [] => Ok (1, bond_order)
   end.
 Lemma digit_not_space d : (d < 10)%nat -> is_space (digit_char d) = false.
 Proof. intros H. do 10 (destruct d as [|d]; [reflexivity|]). lia. Qed.
@@ -269,37 +293,55 @@ Proof.
   rewrite (int_body_digits r Hr d). reflexivity.
 Qed.
 
-Lemma close_head c k : cont k -> exists h tl, close_str c ++ k = h :: tl /\ str_in [h] fnc_eon = true /\ h <> "|"%char.
+Lemma close_head c k : cont k -> exists h tl, close_str c ++ k = h :: tl /\ str_in [h] fnc_eon = true /\ h <> "|"%char /\ sto_mem h = false.
 Proof.
   intros Hk. destruct c as [a|]; cbn [close_str app].
-  - eexists _, _. split; [reflexivity|]. split; [reflexivity|discriminate].
-  - destruct (cont_stopper k Hk) as (h & tl & -> & _ & Hb & Hin & _). eexists _, _. split; [reflexivity|]. split; assumption.
+  - eexists _, _. split; [reflexivity|]. split; [reflexivity|]. split; [discriminate|reflexivity].
+  - destruct (cont_stopper k Hk) as (h & tl & -> & _ & Hb & Hin & Hm). eexists _, _. split; [reflexivity|]. repeat split; assumption.
+Qed.
+Lemma digit_not_eon d : (d < 10)%nat -> str_in [digit_char d] fnc_eon = false.
+Proof. intros H. do 10 (destruct d as [|d]; [reflexivity|]). lia. Qed.
+Lemma sym_in_eon s : str_in [sym_char s] fnc_eon = true. Proof. destruct s; reflexivity. Qed.
+(** the count text "|digits" ends at the first symbol or bracket *)
+Lemma find_idx_count ds h tl : forallb (fun d => (d <? 10)%nat) ds = true -> str_in [h] fnc_eon = true ->
+  find_idx ("|"%char :: digits_str ds ++ h :: tl) fnc_eon = Datatypes.S (length ds).
+Proof.
+  intros Hd Hh. cbn [find_idx]. change (str_in ["|"%char] fnc_eon) with false. cbv iota. f_equal.
+  induction ds as [|d r IH]; cbn [digits_str map app find_idx length].
+  - now rewrite Hh.
+  - cbn [forallb] in Hd. apply andb_prop in Hd as [H1 H2]. apply Nat.ltb_lt in H1.
+    rewrite digit_not_eon by assumption. f_equal. now apply IH.
 Qed.
 
 Lemma nmon_lin fo i k : lin_ok fo i = true -> cont k ->
-  nmon_expr (lin_tail_str i ++ k) = Ok (Z.of_nat (mult_val (l_mult i))).
+  nmon_expr (lin_tail_str i ++ k) (bo0_of i) = Ok (Z.of_nat (mult_val (l_mult i)), oord (l_bond i)).
 Proof.
-  intros Hok Hk. unfold lin_ok in Hok. repeat (apply andb_prop in Hok as [Hok ?]).
-  rename H into Hcl. rename H0 into Hmu. rename H1 into Hr.
-  unfold lin_tail_str. rewrite <- !app_assoc. destruct (close_head (l_close i) k Hk) as (h & tl & Eh & Hin & Hnb).
+  intros Hok Hk. destruct (lin_ok_parts fo i Hok) as (_ & Hr & Hm & Hc).
+  unfold lin_tail_str, bo0_of. rewrite <- !app_assoc. destruct (close_head (l_close i) k Hk) as (h & tl & Eh & Hin & Hnb & Hsm).
   destruct (l_mult i) as [ds|] eqn:Em.
-  - repeat (apply andb_prop in Hmu as [Hmu ?]). destruct (l_rings i); [|discriminate]. destruct (l_bond i); [discriminate|].
-    rename H0 into Hd. cbn [mult_str rings_str osym_str app mult_val]. rewrite Eh.
-    unfold nmon_expr. cbn [Ascii.eqb]. change (Ascii.eqb "|"%char "|"%char) with true. cbv iota.
-    rewrite fnc0_spec.
-    change ("|"%char :: digits_str ds ++ h :: tl) with (("|"%char :: digits_str ds) ++ h :: tl).
-    assert (Hin1 : Forall inner ("|"%char :: digits_str ds))
-      by (constructor; [apply inner_bar|apply inner_digits; now apply digits_ok_all]).
-    rewrite (find_idx_inner ("|"%char :: digits_str ds) fnc_eon Hin1 incl_eon).
-    cbn [find_idx]. rewrite Hin. cbn [bind]. rewrite Nat.add_0_r. cbn [length].
-    unfold py_slice. cbn [app skipn]. replace (Datatypes.S (length (digits_str ds)) - 1)%nat with (length (digits_str ds)) by lia.
-    rewrite firstn_app, Nat.sub_diag, firstn_all. cbn [firstn]. rewrite app_nil_r. now apply py_int_full_digits.
+  - destruct Hm as (Er & Hd & H1). rewrite Er. cbn [mult_str rings_str app mult_val]. rewrite Eh.
+    destruct (digits_ok_all ds Hd) as [Hall _].
+    (* the character behind the count, and what it says about the bond order *)
+    assert (Hy : exists y ty, osym_str (l_bond i) ++ h :: tl = y :: ty /\ str_in [y] fnc_eon = true
+                 /\ (if sto_mem y then symbol_to_order_lookup [y] else Ok default_bond_order) = Ok (oord (l_bond i))).
+    { destruct (l_bond i) as [s|]; cbn [osym_str app oord].
+      - eexists _, _. split; [reflexivity|]. split; [apply sym_in_eon|]. now rewrite sym_mem, sym_lookup.
+      - eexists _, _. split; [reflexivity|]. split; [assumption|]. now rewrite Hsm. }
+    destruct Hy as (y & ty & Ey & Hyin & Hybo). rewrite Ey.
+    unfold nmon_expr. change (Ascii.eqb "|"%char "|"%char) with true. cbv iota. rewrite fnc0_spec.
+    rewrite (find_idx_count ds y ty Hall Hyin). cbn [bind].
+    unfold py_slice. cbn [skipn]. replace (Datatypes.S (length ds) - 1)%nat with (length (digits_str ds)) by (unfold digits_str; rewrite map_length; lia).
+    rewrite firstn_app, Nat.sub_diag, firstn_all. cbn [firstn]. rewrite app_nil_r. rewrite py_int_full_digits by assumption. cbn [bind].
+    assert (En : nth_error ("|"%char :: digits_str ds ++ y :: ty) (Datatypes.S (length ds)) = Some y).
+    { cbn [nth_error]. rewrite nth_error_app2 by (unfold digits_str; rewrite map_length; lia).
+      unfold digits_str. rewrite map_length, Nat.sub_diag. reflexivity. }
+    rewrite En, Hybo. reflexivity.
   - cbn [mult_str app mult_val]. rewrite Eh. rewrite app_assoc.
     assert (Hp : Forall nobar (rings_str false (l_rings i) ++ osym_str (l_bond i)))
       by (apply Forall_app; split; [now apply nobar_rings|apply nobar_osym]).
     unfold nmon_expr. destruct (rings_str false (l_rings i) ++ osym_str (l_bond i)) as [|c p]; cbn [app].
     + destruct (Ascii.eqb_spec h "|"%char); [contradiction|reflexivity].
-    + inversion Hp as [|? ? Hc _]; subst. destruct (Ascii.eqb_spec c "|"%char); [contradiction|reflexivity].
+    + inversion Hp as [|? ? Hc0 _]; subst. destruct (Ascii.eqb_spec c "|"%char); [contradiction|reflexivity].
 Qed.
 
 (** ** does the branch end behind this node? (lines 255-256) *)
@@ -308,9 +350,9 @@ Lemma lin_tail_split i k : lin_tail_str i ++ k = lin_prefix i ++ close_str (l_cl
 Proof. unfold lin_tail_str, lin_prefix. now rewrite <- !app_assoc. Qed.
 Lemma lin_prefix_inner fo i : lin_ok fo i = true -> Forall inner (lin_prefix i).
 Proof.
-  intros Hok. unfold lin_ok in Hok. repeat (apply andb_prop in Hok as [Hok ?]).
+  intros Hok. destruct (lin_ok_parts fo i Hok) as (_ & Hr & Hm & _).
   unfold lin_prefix. apply Forall_app; split; [|apply Forall_app; split; [now apply inner_rings|apply inner_osym]].
-  apply inner_mult. destruct (l_mult i); [|exact I]. repeat (apply andb_prop in H0 as [H0 ?]). assumption.
+  apply inner_mult. destruct (l_mult i); [|exact I]. now destruct Hm as (_ & ? & _).
 Qed.
 Lemma look_lin fo i k : lin_ok fo i = true -> cont k ->
   exists io ic, fnc0 (lin_tail_str i ++ k) fnc_next_open = Ok io /\ fnc0 (lin_tail_str i ++ k) fnc_next_close = Ok ic
@@ -356,7 +398,7 @@ Qed.
 (** ** one iteration of the reader's loop, restated over the pieces analysed above *)
 Definition opened (st : rstate) (pc : ascii) : res (bool * list (option Z) * recipes_t) :=
   if Ascii.eqb pc "("%char then
-    a <- of_option (s_attributes st) EUnbound ;;
+    a <- (match s_prev_node st with Some p => node_attrs (s_g st) p | None => Err EKey end) ;;
     Ok (true, s_branch_anchor st ++ [s_prev_node st], rec_set (s_prev_node st) [(1, a, Some 1)] (s_recipes st))
   else Ok (s_branching st, s_branch_anchor st, s_recipes st).
 Lemma node_step_eq fo st pc nm rest :
@@ -364,7 +406,7 @@ Lemma node_step_eq fo st pc nm rest :
   ('(branching, branch_anchor, recipes) <- opened st pc ;;
    '(rs, rdx) <- ring_scan (s_current st) rest 0 (clean_st (s_cycle st) []) ;;
    bond_order <- bond_expr rest rdx ;;
-   n_mon <- nmon_expr rest ;;
+   '(n_mon, bond_order) <- nmon_expr rest bond_order ;;
    a <- parse_graph_base_node fo nm ;;
    recipes <- (if branching then
                  match rev branch_anchor with
@@ -383,18 +425,19 @@ Lemma node_step_eq fo st pc nm rest :
 Proof. reflexivity. Qed.
 
 (** the node loop against the machine's copies *)
-Lemma add_nodes_copies : forall n a g cur prev pbo pend,
-  ahas (S "node_for_adding") a = false -> (forall p, prev = Some p -> pbo = Some pend) ->
-  add_nodes n a 1 [] g cur prev pbo
-  = Ok (let '(g', nx, pv) := m_copies n a g cur prev pend in (g', nx, pv, match n with O => pbo | _ => Some 1 end)).
+Lemma add_nodes_copies : forall n a bo g cur prev pbo pend,
+  ahas (S "node_for_adding") a = false -> ((1 <= n)%nat -> forall p, prev = Some p -> pbo = Some pend) ->
+  add_nodes n a bo [] g cur prev pbo
+  = Ok (let '(g', nx, pv) := m_copies n a g cur prev pend in (g', nx, pv, match n with O => pbo | _ => Some bo end)).
 Proof.
-  induction n as [|n IH]; intros a g cur prev pbo pend Ha Hp; [reflexivity|].
+  induction n as [|n IH]; intros a bo g cur prev pbo pend Ha Hp; [reflexivity|].
   cbn [add_nodes m_copies]. unfold py_add_node. rewrite Ha. cbn [bind add_cycle_edges].
   assert (E : match prev with Some p => add_edge (add_node g cur a) p cur (order_attr pbo) | None => add_node g cur a end
             = match prev with Some p => add_edge (add_node g cur a) p cur (eorder pend) | None => add_node g cur a end).
-  { destruct prev as [p|]; [|reflexivity]. now rewrite (Hp p eq_refl). }
-  rewrite E. rewrite (IH a _ (cur + 1) (Some cur) (Some 1) 1 Ha) by (intros; reflexivity).
-  destruct (m_copies n a _ (cur + 1) (Some cur) 1) as [[g' nx] pv]. now destruct n.
+  { destruct prev as [p|]; [|reflexivity]. now rewrite (Hp ltac:(lia) p eq_refl). }
+  rewrite E. rewrite (IH a bo _ (cur + 1) (Some cur) _ 1 Ha).
+  - destruct (m_copies n a _ (cur + 1) (Some cur) 1) as [[g' nx] pv]. now destruct n.
+  - intros Hn p _. destruct n; [lia|reflexivity].
 Qed.
 Lemma add_nodes_one a bo ces g cur prev pbo pend :
   ahas (S "node_for_adding") a = false -> (forall p, prev = Some p -> pbo = Some pend) ->
@@ -430,20 +473,6 @@ Definition item_effect (fo : float_oracle) (i : lin) (x : mstate) : res mstate :
       | top :: stk => Ok {| m_g := g3; m_next := nx; m_prev := top; m_pend := oord a'; m_stack := stk; m_rings := fst cc |}
       end
   end.
-
-Lemma lin_ok_parts fo i : lin_ok fo i = true ->
-  name_ok fo (l_name i) = true /\ forallb (fun om => marker_ok (snd om)) (l_rings i) = true
-  /\ match l_mult i with
-     | Some ds => l_rings i = [] /\ l_bond i = None /\ digits_ok ds = true /\ (1 <= digits_nat ds)%nat
-     | None => True end
-  /\ match l_close i with Some _ => l_bond i = None | None => True end.
-Proof.
-  unfold lin_ok. intros H. apply andb_prop in H as [H Hc]. apply andb_prop in H as [H Hm]. apply andb_prop in H as [Hn Hr].
-  split; [assumption|]. split; [assumption|]. split.
-  - destruct (l_mult i); [|exact I]. repeat (apply andb_prop in Hm as [Hm ?]).
-    destruct (l_rings i); [|discriminate]. destruct (l_bond i); [discriminate|]. apply Nat.leb_le in H. auto.
-  - destruct (l_close i); [|exact I]. now destruct (l_bond i).
-Qed.
 
 Lemma m_item fo i ts x : lin_ok fo i = true ->
   m_run fo (lin_toks i ++ ts) x = (x1 <- item_effect fo i x ;; m_run fo ts x1).
@@ -481,7 +510,7 @@ Definition Rel (st : rstate) (x : mstate) : Prop :=
 
 Lemma node_step_lin fo i k st x pc :
   lin_ok fo i = true -> cont k -> Rel st x ->
-  (Ascii.eqb pc "("%char = l_open i) -> (l_open i = true -> m_prev x <> None) ->
+  (Ascii.eqb pc "("%char = l_open i) -> (l_open i = true -> exists p, m_prev x = Some p /\ has_node (m_g x) p = true) ->
   (l_close i <> None -> (if l_open i then m_prev x :: m_stack x else m_stack x) <> []) ->
   match item_effect fo i x with
   | Ok x1 => exists st1, node_step fo st pc (l_name i) (lin_tail_str i ++ k) = Ok st1 /\ Rel st1 x1
@@ -496,8 +525,9 @@ Proof.
   set (stack0 := if l_open i then m_prev x :: m_stack x else m_stack x).
   assert (Hopened : exists rc, opened st pc = Ok (negb (is_nil stack0), rev stack0, rc) /\ (l_open i = false -> rc = s_recipes st)).
   { unfold opened, stack0. rewrite Hpc. destruct (l_open i).
-    - destruct (m_prev x) as [p|] eqn:Ep; [|now elim Hop]. destruct (Rpb p eq_refl) as [_ Ha].
-      destruct (s_attributes st) as [a0|]; [|contradiction]. cbn [of_option bind]. eexists. rewrite Rba, Rp. split; [reflexivity|discriminate].
+    - destruct (Hop eq_refl) as (p & Ep & Hp). rewrite Rp, Ep, Rg.
+      unfold node_attrs, has_node in *. destruct (gfind p (m_g x)) as [nr|]; [|discriminate]. cbn [bind].
+      eexists. rewrite Rba. split; [reflexivity|discriminate].
     - eexists. rewrite Rbr, Rba. split; reflexivity. }
   destruct Hopened as (rc & -> & Hrc0). cbn [bind].
   (* 150-200 *)
@@ -524,8 +554,8 @@ Proof.
                = (let '(g2, nx, pv) := m_copies (mult_val (l_mult i)) a (m_g x) (m_next x) (m_prev x) (m_pend x) in
                   g3 <- add_cycle_edges g2 (r_ces xr) ;; Ok (g3, nx, pv, Some (oord (l_bond i))))).
   { destruct (l_mult i) as [ds|] eqn:Em; cbn [mult_val].
-    - destruct Hm as (Er & Eb & Hd & H1). rewrite Er in Sr. cbn [spec_rings] in Sr. injection Sr as _ Eces.
-      rewrite Eces, Eb. cbn [oord]. rewrite (add_nodes_copies _ a _ _ _ _ (m_pend x) Ha Hpp).
+    - destruct Hm as (Er & Hd & H1). rewrite Er in Sr. cbn [spec_rings] in Sr. injection Sr as _ Eces.
+      rewrite Eces. rewrite (add_nodes_copies _ a _ _ _ _ _ (m_pend x) Ha) by (intros _; exact Hpp).
       destruct (m_copies (digits_nat ds) a (m_g x) (m_next x) (m_prev x) (m_pend x)) as [[g2 nx] pv].
       cbn [add_cycle_edges bind]. destruct (digits_nat ds); [lia|reflexivity].
     - now apply add_nodes_one. }
@@ -575,6 +605,110 @@ Proof.
   - injection E as <-. cbn. repeat split; [assumption|discriminate|destruct (l_open i); reflexivity].
 Qed.
 
+(** the machine's graph: node keys are below the counter; the node to attach to, the anchors on the
+    stack and the nodes in the ring table exist *)
+Definition exists_in (g : graph) (o : option Z) : Prop := forall p, o = Some p -> has_node g p = true.
+Record mwf (x : mstate) : Prop := {
+  w_fresh : forall k, has_node (m_g x) k = true -> k < m_next x;
+  w_prev : exists_in (m_g x) (m_prev x);
+  w_stack : Forall (exists_in (m_g x)) (m_stack x);
+  w_rings : Forall (fun e => has_node (m_g x) (fst (snd e)) = true) (m_rings x) }.
+Lemma mwf_init : mwf m_init.
+Proof. split; cbn; try constructor; intros; discriminate. Qed.
+
+Lemma m_copies_nodes : forall n a g next prev pend g' nx pv,
+  exists_in g prev -> m_copies n a g next prev pend = (g', nx, pv) ->
+  nx = next + Z.of_nat n
+  /\ (forall k, has_node g' k = has_node g k || ((next <=? k) && (k <? next + Z.of_nat n)))
+  /\ ((1 <= n)%nat -> pv = Some (next + Z.of_nat n - 1)).
+Proof.
+  induction n as [|n IH]; intros a g next prev pend g' nx pv Hp E.
+  - cbn in E. injection E as <- <- <-. split; [lia|]. split; [|lia].
+    intros k. destruct (next <=? k) eqn:E1; [|now rewrite orb_false_r]. cbn. assert (k <? next + 0 = false) by (apply Z.ltb_ge; apply Z.leb_le in E1; lia).
+    rewrite H. now rewrite orb_false_r.
+  - cbn [m_copies] in E.
+    set (g2 := match prev with Some p => add_edge (add_node g next a) p next (eorder pend) | None => add_node g next a end) in *.
+    assert (Hg2 : forall k, has_node g2 k = has_node g k || Z.eqb next k).
+    { intros k. unfold g2. destruct prev as [p|].
+      - rewrite has_node_add_edge, has_node_add_node. specialize (Hp p eq_refl).
+        destruct (Z.eqb_spec p k) as [->|]; [rewrite Hp; now destruct (next =? k)|]. now destruct (has_node g k), (next =? k).
+      - apply has_node_add_node. }
+    destruct (IH a g2 (next + 1) (Some next) 1 g' nx pv) as (E1 & E2 & E3); [|exact E|].
+    { intros p Ep. injection Ep as <-. rewrite Hg2, Z.eqb_refl. apply orb_true_r. }
+    split; [lia|]. split.
+    + intros k. rewrite E2, Hg2. rewrite <- orb_assoc. f_equal.
+      destruct (Z.eqb_spec next k), (Z.leb_spec (next + 1) k), (Z.ltb_spec k (next + 1 + Z.of_nat n)),
+               (Z.leb_spec next k), (Z.ltb_spec k (next + Z.of_nat (Datatypes.S n))); cbn; try reflexivity; lia.
+    + intros _. destruct n as [|n].
+      * cbn in E. injection E as _ _ <-. f_equal. lia.
+      * rewrite E3 by lia. f_equal. lia.
+Qed.
+Lemma add_cycle_edges_nodes : forall ces g g',
+  Forall (fun e => has_node g (fst (fst e)) = true /\ has_node g (snd (fst e)) = true) ces ->
+  add_cycle_edges g ces = Ok g' -> forall k, has_node g' k = has_node g k.
+Proof.
+  induction ces as [|[[u v] o] r IH]; intros g g' Hf E k.
+  - cbn in E. now injection E as <-.
+  - cbn [add_cycle_edges] in E. destruct (has_edge g u v); [discriminate|].
+    inversion Hf as [|? ? [Hu Hv] Hr]; subst. cbn [fst snd] in Hu, Hv.
+    assert (Hk : forall k0, has_node (add_edge g u v (order_attr (Some o))) k0 = has_node g k0).
+    { intros k0. rewrite has_node_add_edge. destruct (Z.eqb_spec u k0) as [->|]; [now rewrite Hu|].
+      destruct (Z.eqb_spec v k0) as [->|]; [now rewrite Hv|]. now rewrite !orb_false_r. }
+    rewrite (IH _ g' ltac:(eapply Forall_impl; [|exact Hr]; intros e [A B]; now rewrite !Hk) E). apply Hk.
+Qed.
+Lemma cyc_get_in m cyc n0 o0 : cyc_get m cyc = Some (n0, o0) -> In (m, (n0, o0)) cyc.
+Proof.
+  induction cyc as [|[k v] r IH]; cbn; [discriminate|]. destruct (Z.eqb_spec k m) as [->|]; [intros H; injection H as ->; now left|].
+  intros H. right. now apply IH.
+Qed.
+Lemma cyc_del_forall (P : Z * (Z * Z) -> Prop) m cyc : Forall P cyc -> Forall P (cyc_del m cyc).
+Proof. induction 1 as [|[k v] r H Hr IH]; cbn; [constructor|]. destruct (Z.eqb k m); [assumption|now constructor]. Qed.
+Lemma spec_rings_exist (P : Z -> Prop) r cur : P cur -> forall cyc ces,
+  Forall (fun e => P (fst (snd e))) cyc -> Forall (fun e => P (fst (fst e)) /\ P (snd (fst e))) ces ->
+  Forall (fun e => P (fst (snd e))) (fst (spec_rings r cur (cyc, ces)))
+  /\ Forall (fun e => P (fst (fst e)) /\ P (snd (fst e))) (snd (spec_rings r cur (cyc, ces))).
+Proof.
+  intros Hc. induction r as [|[o m] t IH]; intros cyc ces H1 H2; [split; assumption|].
+  cbn [spec_rings fst snd]. unfold commit. destruct (cyc_get (marker_val m) cyc) as [[n0 o0]|] eqn:E; cbn [fst snd].
+  - apply IH; [now apply cyc_del_forall|]. apply Forall_app; split; [assumption|]. constructor; [|constructor]. cbn [fst snd].
+    split; [assumption|]. apply cyc_get_in in E. rewrite Forall_forall in H1. apply (H1 _ E).
+  - apply IH; [|assumption]. apply Forall_app; split; [assumption|]. constructor; [exact Hc|constructor].
+Qed.
+
+Lemma item_effect_mwf fo i x x1 : lin_ok fo i = true -> item_effect fo i x = Ok x1 -> mwf x -> mwf x1.
+Proof.
+  intros Hok E [Hf Hp Hs Hr]. destruct (lin_ok_parts fo i Hok) as (_ & _ & Hm & _). unfold item_effect in E.
+  destruct (parse_graph_base_node fo (l_name i)) as [a|]; [|discriminate]. cbn [bind] in E.
+  assert (Hn1 : (1 <= mult_val (l_mult i))%nat) by (unfold mult_val; destruct (l_mult i); [tauto|lia]).
+  destruct (m_copies (mult_val (l_mult i)) a (m_g x) (m_next x) (m_prev x) (m_pend x)) as [[g2 nx] pv] eqn:Ec.
+  destruct (m_copies_nodes _ _ _ _ _ _ _ _ _ Hp Ec) as (Enx & Hg2 & Epv). specialize (Epv Hn1).
+  assert (Hmono : forall k, has_node (m_g x) k = true -> has_node g2 k = true) by (intros k Hk; rewrite Hg2, Hk; reflexivity).
+  assert (Hcur : has_node g2 (m_next x) = true).
+  { rewrite Hg2. assert (m_next x <=? m_next x = true) by (apply Z.leb_le; lia).
+    assert (m_next x <? m_next x + Z.of_nat (mult_val (l_mult i)) = true) by (apply Z.ltb_lt; lia). rewrite H, H0. apply orb_true_r. }
+  destruct (spec_rings_exist (fun n => has_node g2 n = true) (l_rings i) (m_next x) Hcur (m_rings x) [])
+    as [Hr1 Hc1]; [eapply Forall_impl; [|exact Hr]; intros e; apply Hmono|constructor|].
+  destruct (add_cycle_edges g2 _) as [g3|] eqn:Ea; [|discriminate]. cbn [bind] in E.
+  pose proof (add_cycle_edges_nodes _ _ _ Hc1 Ea) as Hg3.
+  assert (Hmono3 : forall k, has_node (m_g x) k = true -> has_node g3 k = true) by (intros k Hk; rewrite Hg3; now apply Hmono).
+  assert (Hfresh3 : forall k, has_node g3 k = true -> k < nx).
+  { intros k Hk. rewrite Hg3, Hg2 in Hk. apply orb_prop in Hk as [Hk|Hk]; [specialize (Hf k Hk); lia|].
+    apply andb_prop in Hk as [_ Hk]. apply Z.ltb_lt in Hk. lia. }
+  assert (Hlast : has_node g3 (m_next x + Z.of_nat (mult_val (l_mult i)) - 1) = true).
+  { rewrite Hg3, Hg2. assert (A : m_next x <=? m_next x + Z.of_nat (mult_val (l_mult i)) - 1 = true) by (apply Z.leb_le; lia).
+    assert (B : m_next x + Z.of_nat (mult_val (l_mult i)) - 1 <? m_next x + Z.of_nat (mult_val (l_mult i)) = true) by (apply Z.ltb_lt; lia).
+    rewrite A, B. apply orb_true_r. }
+  assert (Hs0 : Forall (exists_in g3) (if l_open i then m_prev x :: m_stack x else m_stack x)).
+  { assert (Hs3 : Forall (exists_in g3) (m_stack x)) by (eapply Forall_impl; [|exact Hs]; intros o Ho p Ep; apply Hmono3; now apply Ho).
+    destruct (l_open i); [|assumption]. constructor; [|assumption]. intros p Ep. apply Hmono3. now apply Hp. }
+  assert (Hr3 : Forall (fun e => has_node g3 (fst (snd e)) = true) (fst (spec_rings (l_rings i) (m_next x) (m_rings x, [])))).
+  { eapply Forall_impl; [|exact Hr1]. intros e He. now rewrite Hg3. }
+  destruct (l_close i) as [a'|].
+  - destruct (if l_open i then m_prev x :: m_stack x else m_stack x) as [|top stk]; [discriminate|]. injection E as <-.
+    inversion Hs0; subst. split; cbn; assumption.
+  - injection E as <-. split; cbn; try assumption. intros p Ep. rewrite Epv in Ep. injection Ep as <-. exact Hlast.
+Qed.
+
 Definition skipch (c : ascii) : Prop := c <> "["%char /\ c <> "("%char.
 Lemma skipch_nob l : Forall skipch l -> Forall nob l.
 Proof. intros H. eapply Forall_impl; [|exact H]. intros c [H1 _]. exact H1. Qed.
@@ -606,7 +740,7 @@ Qed.
 (** ** the main induction: the reader's loop on the printed items = the machine on their tokens *)
 Theorem sim_loop fo : forall l st x pre pc fuel,
   forallb (lin_ok fo) l = true -> lin_depth (length (m_stack x)) l = true ->
-  Rel st x -> all_some (m_stack x) ->
+  Rel st x -> all_some (m_stack x) -> mwf x ->
   (m_prev x = None -> match l with i :: _ => l_open i = false | [] => True end) ->
   Forall skipch pre -> pc <> "("%char -> (length l < fuel)%nat ->
   match m_run fo (lins_toks l) x with
@@ -614,7 +748,7 @@ Theorem sim_loop fo : forall l st x pre pc fuel,
   | Err e => main_loop fuel fo pc (pre ++ lins_str l ++ ["}"%char]) st = Err e
   end.
 Proof.
-  induction l as [|i t IH]; intros st x pre pc fuel Hok Hd HR Hs Hfirst Hpre Hpc Hfuel.
+  induction l as [|i t IH]; intros st x pre pc fuel Hok Hd HR Hs Hw Hfirst Hpre Hpc Hfuel.
   - cbn [lins_toks flat_map m_run lins_str app]. exists st. split; [|assumption].
     destruct fuel as [|f]; [lia|]. cbn [main_loop].
     rewrite next_node_skip by (now apply skipch_nob). now rewrite next_node_single.
@@ -641,18 +775,22 @@ Proof.
       - rewrite app_nil_r. apply Ascii.eqb_neq. now apply last_skipch. }
     assert (Hop : l_open i = true -> m_prev x <> None).
     { intros Ho Hn0. specialize (Hfirst Hn0). cbn in Hfirst. congruence. }
+    assert (Hop2 : l_open i = true -> exists p, m_prev x = Some p /\ has_node (m_g x) p = true).
+    { intros Ho. specialize (Hop Ho). destruct (m_prev x) as [p|] eqn:Ep; [|contradiction]. exists p. split; [reflexivity|].
+      apply (w_prev x Hw). exact Ep. }
     assert (Hst : l_close i <> None -> (if l_open i then m_prev x :: m_stack x else m_stack x) <> []).
     { intros Hc. cbn [lin_depth] in Hd. destruct (l_open i); [discriminate|].
       destruct (l_close i); [|contradiction]. destruct (m_stack x); [discriminate|discriminate]. }
-    pose proof (node_step_lin fo i k st x _ Hoki Hk HR Hpc' Hop Hst) as Hstep.
+    pose proof (node_step_lin fo i k st x _ Hoki Hk HR Hpc' Hop2 Hst) as Hstep.
     destruct (item_effect fo i x) as [x1|e] eqn:Eeff; cbn [bind].
     + destruct Hstep as (st1 & -> & HR1 & _). cbn [bind].
+      pose proof (item_effect_mwf fo i x x1 Hoki Eeff Hw) as Hw1.
       destruct (item_effect_inv fo i x x1 Hoki Eeff Hs Hop) as (Hs1 & Hp1 & Hd1).
       assert (Hdt : lin_depth (length (m_stack x1)) t = true).
       { cbn [lin_depth] in Hd. cbv zeta in Hd1. destruct (l_close i).
         - rewrite Hd1 in Hd. exact Hd.
         - rewrite Hd1 in Hd. exact Hd. }
-      specialize (IH st1 x1 (lin_tail_str i) "]"%char f Hokt Hdt HR1 Hs1).
+      specialize (IH st1 x1 (lin_tail_str i) "]"%char f Hokt Hdt HR1 Hs1 Hw1).
       unfold k. apply IH.
       * intros Hn0. contradiction.
       * now apply (lin_tail_skipch fo).
@@ -680,7 +818,7 @@ Proof.
   rewrite Elast.
   assert (HR : Rel init_state m_init) by (unfold Rel; cbn; repeat split; discriminate).
   pose proof (sim_loop fo l init_state m_init ["{"%char] "}"%char (Datatypes.S (length ("{"%char :: lins_str l ++ ["}"%char])))
-                Hok Hd HR (Forall_nil _)) as Hsim.
+                Hok Hd HR (Forall_nil _) mwf_init) as Hsim.
   cbn [app] in Hsim.
   assert (H1 : m_prev m_init = None -> match l with i :: _ => l_open i = false | [] => True end).
   { intros _. destruct l as [|i t]; [exact I|]. now destruct (l_open i). }
